@@ -40,17 +40,22 @@ def pairwiseNe : List Rec → Bool
   | [] => true
   | a :: t => !(t.any (fun b => a.beq low b)) && pairwiseNe t
 
+/-- `str.lower` is ASCII lowering in the driver (DESIGN §4): names with other characters are not judged where case folding matters -/
+def asciiS (s : String) : Bool := s.toList.all (fun (c : Char) => decide (c.toNat < 128))
+
 /-- by-name index: keys distinct, no empty bucket, every record under its lower-cased name, no identity twice in a bucket -/
 def cacheShapeB (c : Cache) : Bool :=
-  distinctS (c.cache.map (·.1)) && c.cache.all (fun kb => !kb.2.isEmpty && kb.2.all (fun r => low r.name == kb.1) && pairwiseNe kb.2)
+  distinctS (c.cache.map (·.1)) &&
+    c.cache.all (fun kb => !kb.2.isEmpty && kb.2.all (fun r => !asciiS r.name || low r.name == kb.1) && pairwiseNe kb.2)
 
 /-- by-server index: exactly the SRV records of the by-name index, under their lower-cased target -/
 def svcShapeB (c : Cache) : Bool :=
   distinctS (c.svc.map (·.1)) &&
     c.svc.all (fun kb => !kb.2.isEmpty && pairwiseNe kb.2 &&
-      kb.2.all (fun r => r.serverKey low == some kb.1 && (c.cache.get (low r.name)).any (fun e => e.beq low r))) &&
+      kb.2.all (fun r => (!asciiS kb.1 || r.serverKey low == some kb.1) &&
+        (!asciiS r.name || (c.cache.get (low r.name)).any (fun e => e.beq low r)))) &&
     c.allRecs.all (fun r => match r.serverKey low with
-      | some k => (c.svc.get k).any (fun e => e.beq low r)
+      | some k => !asciiS k || (c.svc.get k).any (fun e => e.beq low r)
       | none => true)
 
 def nameSafeB (s : String) : Bool := decide (NameSafe (labelsOfText s))
